@@ -4,8 +4,12 @@ from props import ModuleCheck, T, bundled
 
 FARM_CLAUSES_C05 = ["C05_StakeSum", "C05_Escrow", "C05_UnstakeNeverFails", "C05_UnstakeExact",
                     "C05_StakeExact", "C05_OthersUntouched", "C05_ScaleExact", "C05_CrisisInvariant",
-                    "Rejected_NoEffect"]
-FARM_CLAUSES_C06 = ["C06_Budget", "C06_Funded", "C06_AdjustApplies", "C06_ProRata", "C06_Flows", "C06_Rate", "C06_TouchAccrues", "C06_RefundOnce"]
+                    "Rejected_NoEffect",
+                    # audit round 8 (history twins): the recorded stake is the ledger of accepted stakes / unstakes
+                    "C05_StakeLedger"]
+FARM_CLAUSES_C06 = ["C06_Budget", "C06_Funded", "C06_AdjustApplies", "C06_ProRata", "C06_Flows", "C06_Rate", "C06_TouchAccrues", "C06_RefundOnce",
+                    # audit round 8: the recorded rate is the rate of the accepted CreatePool / AdjustPool message
+                    "C06_RateSet"]
 
 # diagnostic clauses (specification grown beyond the listed properties: governance-funded pools, AdjustPool
 # corners, as-is genesis round trips inside a history); evaluated on every trace and in the exhaustive configs,
